@@ -5,6 +5,7 @@ import (
 	"context"
 	"errors"
 	"fmt"
+	"io"
 	"os"
 	"runtime"
 	"syscall"
@@ -29,6 +30,32 @@ func LockMainThread() { runtime.LockOSThread() }
 
 func Desc(b *Blob) ocispec.Descriptor {
 	return ocispec.Descriptor{MediaType: b.MediaType, Digest: digest.Digest(b.Digest()), Size: int64(len(b.Content()))}
+}
+
+// slowReader hands out at most ReadUnit bytes per Read (like a network body), so
+// that a blob of a few dozen KiB is written by several write system calls and the
+// kill points include cuts in the middle of the content.
+type slowReader struct {
+	data []byte
+	off  int
+}
+
+const ReadUnit = 16 << 10
+
+func (r *slowReader) Read(p []byte) (int, error) {
+	if r.off >= len(r.data) {
+		return 0, io.EOF
+	}
+	n := len(r.data) - r.off
+	if n > ReadUnit {
+		n = ReadUnit
+	}
+	if n > len(p) {
+		n = len(p)
+	}
+	copy(p, r.data[r.off:r.off+n])
+	r.off += n
+	return n, nil
 }
 
 func descOf(b *Blob, variant bool) ocispec.Descriptor {
@@ -71,10 +98,10 @@ func Do(ctx context.Context, st *oci.Store, s *Script, o Op, dir string) error {
 		return err
 	case "push":
 		b := s.Blob(o.Blob)
-		return st.Push(ctx, Desc(b), bytes.NewReader(b.Content()))
+		return st.Push(ctx, Desc(b), &slowReader{data: b.Content()})
 	case "pushbad":
 		b := s.Blob(o.Blob)
-		return st.Push(ctx, Desc(b), bytes.NewReader(b.BadContent()))
+		return st.Push(ctx, Desc(b), &slowReader{data: b.BadContent()})
 	case "tag":
 		return st.Tag(ctx, descOf(s.Blob(o.Blob), o.Variant), RefName(o.Ref))
 	case "untag":
@@ -110,6 +137,7 @@ func ChildMain(dir, scriptPath string) int {
 	for i := range s.Blobs {
 		_ = s.Blobs[i].Content()
 	}
+	syscall.Umask(0o022) // file modes are part of the compared state
 	ctx := context.Background()
 	if s.Final.Kind == "init" {
 		// the operation under test is the initialisation itself
